@@ -111,11 +111,11 @@ Print Assumptions c06_double_release_counts_once.
 (* historical: the pinned code.  D6: SyncKeys did not cancel the pending removal of a key it keeps - the key is gone
    600 ms after SyncKeys asked for it.  D19: a stale removal callback removed the key under a newer pending removal -
    the key is gone at 1000 although its removal was requested at 1000 with a delay of 1000. *)
-Definition pinned_d6 : fixes := {| fx_wait := true; fx_setkey := true; fx_sync := false; fx_reset := true; fx_stale := true |}.
+Definition pinned_d6 : fixes := {| fx_wait := true; fx_setkey := true; fx_sync := false; fx_reset := true; fx_stale := true; fx_nilchain := true |}.
 Definition d6_witness : list ev := [ESetKey 0 true; ERemoveKey 0; EAdvance 500; ESyncKeys [0] false; EAdvance 600; ETimerCb 0].
 Theorem c06_pinned_d6_refuted : present (run pinned_d6 (init 1000 None) d6_witness) 0 = false.
 Proof. vm_compute. reflexivity. Qed.
-Definition pinned_d19 : fixes := {| fx_wait := true; fx_setkey := true; fx_sync := true; fx_reset := true; fx_stale := false |}.
+Definition pinned_d19 : fixes := {| fx_wait := true; fx_setkey := true; fx_sync := true; fx_reset := true; fx_stale := false; fx_nilchain := true |}.
 Definition d19_witness : list ev := [ESetKey 0 true; ERemoveKey 0; EAdvance 1000; ESetKey 0 false; ERemoveKey 0; ETimerCb 0].
 Theorem c06_pinned_d19_refuted :
   let s := run pinned_d19 (init 1000 None) d19_witness in present s 0 = false /\ clock s = 1000%N.
